@@ -1,3 +1,4 @@
 import RpycModel.Conc.SendQ.Model
 import RpycModel.Conc.SendQ.Lemmas
+import RpycModel.Conc.SendQ.Progress
 /-! L8 `SendQ` — the send side of a shared connection (C12): model + invariants. -/
